@@ -1415,7 +1415,6 @@ def run(ctx):
     tasks = schema_tasks(ctx.tier)
     pool = [t[1] for t in tasks if t[0] == 'names']
     ctx.notes['name_pool'] = pool
-    ctx.sample(dict(part='create', family='names', pool=pool))
     tasks = explorer.rotate(tasks, ctx.seed)
     ctx.pmap(run_schema, tasks, chunk=max(1, len(tasks) // 256))
     print('  creation: schemas=%d cases=%d instances=%d (names family: pool=%d cases=%d) t=%.0fs' %
